@@ -268,10 +268,13 @@ def model_check(spec_dir, module, cfg, workdir, timeout=1200, workers=None, extr
     cdir = os.path.join(VERIF, ".cache", "mc")
     cpath = os.path.join(cdir, key + ".json")
     if cache and os.path.exists(cpath):
-        with open(cpath) as fh:
-            r = json.load(fh)
-        r["cached"] = True
-        return r
+        try:
+            with open(cpath) as fh:
+                r = json.load(fh)
+            r["cached"] = True
+            return r
+        except ValueError:
+            pass      # unreadable cache entry: model-check again
     r = run_tlc(spec_dir, module, cfg, workdir, workers=workers, timeout=timeout, extra=extra, heap=heap)
     if not r["ok"]:
         raise Infra("model checking of %s/%s reports a violation of the specification itself "
@@ -279,8 +282,10 @@ def model_check(spec_dir, module, cfg, workdir, timeout=1200, workers=None, extr
     out = {k: r[k] for k in ("generated", "distinct", "depth", "wall", "cmd")}
     out["cached"] = False
     os.makedirs(cdir, exist_ok=True)
-    with open(cpath, "w") as fh:
+    tmp = "%s.%d.tmp" % (cpath, os.getpid())      # several checks may run at once and share this cache
+    with open(tmp, "w") as fh:
         json.dump(out, fh)
+    os.replace(tmp, cpath)
     return out
 
 
